@@ -466,3 +466,4 @@ def check(run, replay=None):
 
 # workloads added in seeding rounds 7-10 (DESIGN.md sections 13.9-13.12)
 LEVEL_TEXT = LEVEL_TEXT + ' Later additions: voxels whose UBI[0,0] is exactly 0.0; TensorMap histories with strain/stress computed in between; pairs of maps built empty and filled afterwards.'
+LEVEL_TEXT = LEVEL_TEXT + ' Round 11: derived grain properties read twice in random orders against fresh grains.'
